@@ -4,25 +4,21 @@
 From Yv Require Import Common.Base C05.Model C05.Spec C05.ProofsMatch C05.ProofsSearch C05.ProofsFs C05.Proofs.
 From Coq Require Import Sorting.Sorted.
 
-(* the pathnames glob finds are exactly the expected ones: one name per component (a literal component stands for its quote-removed text; a pattern component is an entry, other than . and .., of the directory named by the text before it, matched with the leading-period rule), and, when the last component is not a pattern, a pathname that fstatat (following links) accepts *)
-Theorem glob_exact : forall (t : fs) (cwd : str) (field : list achar) (p : str), In p (glob_paths t cwd field) <-> ExpectedF t cwd field p.
+(* the pathnames glob finds are exactly the expected ones: one name per component (a literal component stands for its quote-removed text; a pattern component is an entry, other than . and .., of the directory named by the text before it, matched with the leading-period rule), and, when the last component is not a pattern, a pathname that exists (fstatat without following the final link, so a dangling link exists) *)
+Theorem glob_exact : forall (t : fs) (cwd : str) (field : list achar) (p : str), In p (glob_paths t cwd field) <-> ExpectedL t cwd field p.
 Proof. exact glob_exact_l. Qed.
 
 (* never a nonexistent or non-matching pathname: every result exists (final link not followed) and matches the field component by component *)
 Theorem glob_sound : forall (t : fs) (cwd : str) (field : list achar) (p : str), In p (glob_paths t cwd field) -> ExpectedL t cwd field p.
 Proof. exact glob_sound_l. Qed.
 
-(* never omits an existing matching pathname, provided the last component is a pattern or the pathname can be followed to an existing file *)
-Theorem glob_complete : forall (t : fs) (cwd : str) (field : list achar) (p : str), ExpectedL t cwd field p -> last_is_pat (split_slash field) = true \/ fs_stat t cwd p = true -> In p (glob_paths t cwd field).
+(* never omits an existing matching pathname *)
+Theorem glob_complete : forall (t : fs) (cwd : str) (field : list achar) (p : str), ExpectedL t cwd field p -> In p (glob_paths t cwd field).
 Proof. exact glob_complete_l. Qed.
 
-(* without that proviso completeness fails: */dl does not find sub/dl when dl is a dangling symbolic link (candidate finding FDANGLING) *)
-Theorem glob_complete_refuted : exists (t : fs) (cwd : str) (field : list achar) (p : str), wf_fs t = true /\ wf_cwd cwd = true /\ ExpectedL t cwd field p /\ ~ In p (glob_paths t cwd field).
-Proof. exact glob_complete_refuted_l. Qed.
-
-(* ... although sub/d* does find the same link *)
-Theorem dangling_found_by_pattern : In dangling_path (glob_paths dangling_tree [] (soft_field [115; 117; 98; 47; 100; 42]%N)).
-Proof. exact dangling_found_by_pattern_l. Qed.
+(* a dangling symbolic link exists: it is found both when its name is written out and when it is matched (repaired in /repo by 7d0a5f7) *)
+Theorem dangling_found_both_ways : fs_stat dangling_tree [] dangling_path = false /\ ExpectedL dangling_tree [] dangling_field dangling_path /\ glob_paths dangling_tree [] dangling_field = [dangling_path] /\ glob_paths dangling_tree [] (soft_field [115; 117; 98; 47; 100; 42]%N) = [dangling_path].
+Proof. exact dangling_found_both_ways_l. Qed.
 
 (* the result is in strictly increasing code-point (= UTF-8 byte) order, without duplicates *)
 Theorem glob_sorted_nodup : forall (t : fs) (cwd : str) (field : list achar), wf_fs t = true -> StronglySorted (fun a b : str => str_ltb a b = true) (glob_paths t cwd field) /\ NoDup (glob_paths t cwd field).
@@ -49,7 +45,7 @@ Theorem literal_component_is_text : forall (c : list achar) (l : str), compile_c
 Proof. exact literal_is_text. Qed.
 
 (* with noglob, or when nothing is expected, the result is the field itself with quotes removed; otherwise it is the non-empty list of pathnames *)
-Theorem glob_fallback_iff_empty_or_noglob : forall (t : fs) (cwd : str) (field : list achar), glob_model t cwd true field = GFields [unquote field] /\ (field_supported field = true -> (forall p : str, ~ ExpectedF t cwd field p) -> glob_model t cwd false field = GFields [unquote field]) /\ (field_supported field = true -> forall p : str, ExpectedF t cwd field p -> glob_model t cwd false field = GFields (glob_paths t cwd field) /\ In p (glob_paths t cwd field)).
+Theorem glob_fallback_iff_empty_or_noglob : forall (t : fs) (cwd : str) (field : list achar), glob_model t cwd true field = GFields [unquote field] /\ (field_supported field = true -> (forall p : str, ~ ExpectedL t cwd field p) -> glob_model t cwd false field = GFields [unquote field]) /\ (field_supported field = true -> forall p : str, ExpectedL t cwd field p -> glob_model t cwd false field = GFields (glob_paths t cwd field) /\ In p (glob_paths t cwd field)).
 Proof. exact glob_fallback_l. Qed.
 
 (* the model's matcher (backtracking, leading-period test of Pattern::is_match) decides the declarative matching relation *)
@@ -64,13 +60,9 @@ Proof. exact pmatchb_spec. Qed.
 Theorem oracle_enumeration_exact : forall (t : fs) (cwd : str) (field : list achar) (p : str), In p (spec_paths (fs_opendir t cwd) (fs_lstat t cwd) (fs_universe t) field) <-> ExpectedL t cwd field p.
 Proof. exact spec_paths_correct_l. Qed.
 
-(* oracle soundness: the run-time oracle accepts the model's output whenever the last component is a pattern or every link resolves (it asks no more than the theorems give) *)
-Theorem oracle_accepts_model : forall (t : fs) (cwd : str) (noglob : bool) (field : list achar), wf_fs t = true -> field_supported field = true -> last_is_pat (split_slash field) = true \/ links_resolve t cwd -> fs_oracle t cwd noglob field (glob_model t cwd noglob field) = None.
+(* oracle soundness: the run-time oracle accepts the model's output on every well-formed tree and supported field (it asks no more than the theorems give) *)
+Theorem oracle_accepts_model : forall (t : fs) (cwd : str) (noglob : bool) (field : list achar), wf_fs t = true -> field_supported field = true -> fs_oracle t cwd noglob field (glob_model t cwd noglob field) = None.
 Proof. exact oracle_accepts_model_l. Qed.
-
-(* trees without symbolic links satisfy the proviso *)
-Theorem link_free_trees_resolve : forall (t : fs) (cwd : str), (forall (k : list str) (tg : str), ~ In (k, KLink tg) t) -> links_resolve t cwd.
-Proof. exact no_links_resolve. Qed.
 
 (* ---- non-vacuity: concrete, non-trivial instances of the hypotheses ---- *)
 Definition ex_tree : fs :=
@@ -80,10 +72,10 @@ Definition ex_tree : fs :=
 Example ex_tree_wf : wf_fs ex_tree = true /\ wf_fs dangling_tree = true.
 Proof. split; vm_compute; reflexivity. Qed.
 
-(* glob_complete / glob_fallback: an expected pathname, last component literal, target exists *)
+(* glob_complete / glob_fallback / oracle_accepts_model: an expected pathname, last component literal *)
 Example ex_expected :
   ExpectedL ex_tree [] (soft_field [42; 47; 97]%N) [115; 117; 98; 47; 97]%N
-  /\ fs_stat ex_tree [] [115; 117; 98; 47; 97]%N = true
+  /\ fs_lstat ex_tree [] [115; 117; 98; 47; 97]%N = true
   /\ field_supported (soft_field [42; 47; 97]%N) = true.
 Proof.
   split; [apply oracle_enumeration_exact; vm_compute; left; reflexivity | split; vm_compute; reflexivity].
@@ -109,17 +101,10 @@ Proof.
   - intros c [<-|[<-|[<-|[<-|[<-|[]]]]]]; cbn; intros; try discriminate.
 Qed.
 
-(* oracle_accepts_model: a link-free tree satisfies the proviso *)
-Example ex_links_resolve : links_resolve ex_tree [].
-Proof.
-  apply link_free_trees_resolve. intros k tg [H|[H|[H|[H|[]]]]]; discriminate.
-Qed.
-
 Print Assumptions glob_exact.
 Print Assumptions glob_sound.
 Print Assumptions glob_complete.
-Print Assumptions glob_complete_refuted.
-Print Assumptions dangling_found_by_pattern.
+Print Assumptions dangling_found_both_ways.
 Print Assumptions glob_sorted_nodup.
 Print Assumptions glob_no_dot_dotdot_from_wildcard.
 Print Assumptions glob_quoted_literal.
@@ -131,4 +116,3 @@ Print Assumptions pattern_matcher_decides.
 Print Assumptions oracle_matcher_decides.
 Print Assumptions oracle_enumeration_exact.
 Print Assumptions oracle_accepts_model.
-Print Assumptions link_free_trees_resolve.
